@@ -113,7 +113,9 @@ def spacingRegular (dSorted : List Rat) (rk : List Nat) (hint : Option Rat) (rto
 
 /-- the same with gaps allowed: spacing = hint or the smallest consecutive difference (`none` when that is
 zero within `1e-5`), index = rounded multiple of the spacing above the lowest distance, regular iff
-every multiple is close to its rounding. -/
+every multiple is within `rtol + atol/|spacing|` of its rounding, i.e. every plane within `atol + rtol·|spacing|`
+(mm) of a whole multiple of the spacing above the lowest plane (repaired behaviour, defect
+C11-gaps-tolerance-grows: the tolerance used to be relative to the multiple). -/
 def spacingMissing (d dSorted : List Rat) (hint : Option Rat) (rtol atol : Rat) :
     Except ErrKind (Option (Rat × Bool × List Int)) := do
   let sp ← (match hint with
@@ -125,7 +127,7 @@ def spacingMissing (d dSorted : List Rat) (hint : Option Rat) (rtol atol : Rat) 
   | some s, some dmin =>
     let mult := d.map fun x => (x - dmin) / s
     let rounded := mult.map roundHalfEven
-    let reg := (mult.zip rounded).all fun mr => isClose mr.1 (mr.2 : Rat) rtol atol
+    let reg := (mult.zip rounded).all fun mr => isClose mr.1 (mr.2 : Rat) 0 (rtol + atol / rabs s)
     pure (some (s, reg, rounded))
   | _, _ => pure none
 
@@ -221,6 +223,14 @@ def sortDatasets {α} (items : List (List Rat × α)) (ori : List Rat) (conv : L
   let idx ← planeSortIndex (items.map (·.1)) ori conv rightHanded
   pure (idx.filterMap fun i => (items[i]?).map (·.2))
 
+/-- the spacing hint of a series (repaired behaviour, defect C11-series-hint-first-dataset): the value of
+`SpacingBetweenSlices` the datasets agree on — exactly one distinct value among those that carry the attribute —
+whatever their order; no hint when none carries it or when the values conflict. -/
+def commonHint (sbs : List (Option Rat)) : Option Rat :=
+  match sbs.filterMap id with
+  | [] => none
+  | v :: vs => if vs.all (fun x => x == v) then some v else none
+
 /-- `[series[vol_positions.index(i)] for i in range(len(series))]` -/
 def seriesOrder {α} (items : List α) (vp : List Int) : Except ErrKind (List α) :=
   (List.range items.length).mapM fun (i : Nat) =>
@@ -229,16 +239,17 @@ def seriesOrder {α} (items : List α) (vp : List Int) : Except ErrKind (List α
     | none => .error .value      -- list.index raises ValueError
 
 /-- `get_volume_from_series` (geometry and frame order): slice `i` of the volume is the dataset whose volume
-index is `i`; the volume's position is that of slice 0. -/
-def assembleSeries {α} (items : List (List Rat × α)) (ori : List Rat) (rtol atol : Option Rat) :
+index is `i`; the volume's position is that of slice 0.  `sbs` are the datasets' `SpacingBetweenSlices`
+(parallel to `items`): their common value is the spacing hint; a single dataset gives its own value or 1. -/
+def assembleSeries {α} (items : List (List Rat × α)) (sbs : List (Option Rat)) (ori : List Rat) (rtol atol : Option Rat) :
     Except ErrKind (Rat × List Rat × List α) := do
   if items.length = 0 then .error .index
   else if items.length = 1 then
     match items with
-    | x :: _ => pure (1, x.1, [x.2])
+    | x :: _ => pure ((sbs.head?.join).getD 1, x.1, [x.2])
     | [] => .error .index
   else do
-    let r ← getVolumePositions (items.map (·.1)) ori { rtol := rtol, atol := atol }
+    let r ← getVolumePositions (items.map (·.1)) ori { rtol := rtol, atol := atol, hint := commonHint sbs }
     match r with
     | none => .error .value
     | some (sp, vp) => do
@@ -270,16 +281,16 @@ def assembleFrames (rows : List (List Rat)) (ori : List Rat) (hint rtol atol : O
       | none => .error .index
     | _, _ => .error .value
 
-/-- `get_series_volume_positions` on single-frame datasets given as (orientation, position) pairs; `hint` is the
-first dataset's `SpacingBetweenSlices` if present.  Differing orientations (compared exactly, as the code compares the
-attribute values) are `(None, None)`. -/
-def seriesVolumePositions (items : List (List Rat × List Rat)) (hint : Option Rat) (o : Opts) :
+/-- `get_series_volume_positions` on single-frame datasets given as (orientation, position) pairs with their
+`SpacingBetweenSlices` values `sbs`; the hint is their common value (`commonHint`).  Differing orientations (compared
+exactly, as the code compares the attribute values) are `(None, None)`. -/
+def seriesVolumePositions (items : List (List Rat × List Rat)) (sbs : List (Option Rat)) (o : Opts) :
     Except ErrKind (Option (Rat × List Int)) :=
   match items with
   | [] => .error .value
   | [_] => .ok (some (1, [0]))
   | first :: rest =>
     if rest.any (fun it => it.1 != first.1) then .ok none
-    else getVolumePositions (items.map (·.2)) first.1 { o with hint := hint }
+    else getVolumePositions (items.map (·.2)) first.1 { o with hint := commonHint sbs }
 
 end HdVerif.Stack
